@@ -121,8 +121,60 @@ fn nest(name: &str, d: usize) -> String {
         "wide-regex-class" => format!("x = /[{}]/", "a-z".repeat(d)),
         "wide-optional-call-args" => format!("a?.({})", vec!["1"; d].join(",")),
         "wide-tagged-template" => format!("tag`{}`", "${a}x".repeat(d)),
-        _ => String::new(),
+        _ => match name.strip_prefix("wrap:") {
+            // "wrap:<prefix>\u{1}<core>\u{1}<suffix>": prefix^d core suffix^d
+            Some(spec) => {
+                let f: Vec<&str> = spec.split('\u{1}').collect();
+                if f.len() == 3 { format!("{}{}{}", rep(f[0], d), f[1], rep(f[2], d)) } else { String::new() }
+            }
+            None => String::new(),
+        },
     }
+}
+
+/// speculation points of the grammar (parenthesis that may open arrow parameters, `<` that
+/// may open type arguments, `{` that may open a pattern): every opener x every way the
+/// construct can end after the nested part
+const WRAP_PREFIXES: &[&str] = &["(a = ", "(a, b = ", "({a} = ", "([a] = ", "(a = 1, b = ", "async (a = ", "f((a = ", "x ? (a = ", "(a: number = ", "<T>(a = ", "[a = ", "{ let v = (a = ", "(a = [", "(a = {k: ", "(a = `${"];
+const WRAP_SUFFIXES: &[&str] = &[")", ", 0)", ", b.c)", ") + 1", " + 1)", ", ...r)", ", c = 2)", ") => 0", ")!"];
+
+fn wrap_families() -> Vec<String> {
+    let mut v = Vec::new();
+    for p in WRAP_PREFIXES {
+        for s in WRAP_SUFFIXES {
+            // close what the prefix opened besides its parenthesis
+            let extra_open = match *p {
+                "f((a = " => ")",
+                "x ? (a = " => " : 0",
+                "[a = " => "]",
+                "{ let v = (a = " => "; }",
+                "(a = [" => "]",
+                "(a = {k: " => "}",
+                "(a = `${" => "}`",
+                _ => "",
+            };
+            let suffix = match *p {
+                "[a = " => extra_open.to_string(),
+                "(a = [" | "(a = {k: " | "(a = `${" => format!("{}{}", extra_open, s),
+                _ => format!("{}{}", s, extra_open),
+            };
+            v.push(format!("wrap:{}\u{1}1\u{1}{}", p, suffix));
+        }
+    }
+    v.sort();
+    v.dedup();
+    v
+}
+
+fn all_families() -> Vec<String> {
+    let mut v: Vec<String> = FAMILIES.iter().map(|s| s.to_string()).collect();
+    v.extend(wrap_families());
+    v
+}
+
+/// printable family name (the wrap separator is a control character)
+fn fam_label(f: &str) -> String {
+    f.replace('\u{1}', " \u{2026} ")
 }
 
 const FAMILIES: &[&str] = &[
@@ -152,13 +204,15 @@ fn run_one_isolated(src: String, wall: u64) -> Exit {
     })
 }
 
-fn judge_family(r: &mut UnitResult, fam: &str, max_depth: usize) {
+fn judge_family(r: &mut UnitResult, fam_raw: &str, max_depth: usize) {
+    let label = fam_label(fam_raw);
+    let fam: &str = &label;
     let mut prev: Option<(usize, u64)> = None;
     let mut bad_ratios = 0;
     let mut d = 2usize;
     let mut max_ok_depth = 0usize;
     while d <= max_depth {
-        let src = nest(fam, d);
+        let src = nest(fam_raw, d);
         r.evaluations += 1;
         match run_one_isolated(src, 60) {
             Exit::Ok(text) => {
@@ -178,7 +232,7 @@ fn judge_family(r: &mut UnitResult, fam: &str, max_depth: usize) {
                             r.violate(
                                 format!("superpolynomial|{}", fam),
                                 format!("nesting family '{}': front-end work grows super-polynomially: {} work units at depth {}, {} at depth {} (x{:.1}), second consecutive doubling above x9", fam, pw, pd, work, d, ratio),
-                                json!({"family": fam, "depth": d}),
+                                json!({"family": fam_raw, "depth": d}),
                             );
                             break;
                         }
@@ -196,8 +250,8 @@ fn judge_family(r: &mut UnitResult, fam: &str, max_depth: usize) {
                 r.violate(
                     // beyond 20000 links the exact depth at which the native stack runs out depends on the build
                     format!("crash|{}|{}{}", fam, isolate::signal_name(s), if d > 20_000 { "|depth>20000" } else { "" }),
-                    format!("nesting family '{}' at depth {} ({} bytes): process killed by {} (native stack overflow / abort); deepest member handled cleanly: {}", fam, d, nest(fam, d).len(), isolate::signal_name(s), max_ok_depth),
-                    json!({"family": fam, "depth": d}),
+                    format!("nesting family '{}' at depth {} ({} bytes): process killed by {} (native stack overflow / abort); deepest member handled cleanly: {}", fam, d, nest(fam_raw, d).len(), isolate::signal_name(s), max_ok_depth),
+                    json!({"family": fam_raw, "depth": d}),
                 );
                 break;
             }
@@ -207,7 +261,7 @@ fn judge_family(r: &mut UnitResult, fam: &str, max_depth: usize) {
                 r.violate(
                     format!("panic|{}|{}", fam, truncate(&msg, 40)),
                     format!("nesting family '{}' at depth {}: front end panicked (exit {}): {}", fam, d, c, msg),
-                    json!({"family": fam, "depth": d}),
+                    json!({"family": fam_raw, "depth": d}),
                 );
                 break;
             }
@@ -222,14 +276,14 @@ fn judge_family(r: &mut UnitResult, fam: &str, max_depth: usize) {
         let mid = d + d / 2 + (d % 7);
         if mid < max_depth {
             r.evaluations += 1;
-            match run_one_isolated(nest(fam, mid), 60) {
+            match run_one_isolated(nest(fam_raw, mid), 60) {
                 Exit::Ok(_) => r.nontrivial += 1,
                 Exit::Timeout(_) => r.inconclusive += 1,
                 Exit::Signal(s, _) => {
                     r.violate(
                         format!("crash|{}|{}{}", fam, isolate::signal_name(s), if mid > 20_000 { "|depth>20000" } else { "" }),
                         format!("nesting family '{}' at depth {}: process killed by {}", fam, mid, isolate::signal_name(s)),
-                        json!({"family": fam, "depth": mid}),
+                        json!({"family": fam_raw, "depth": mid}),
                     );
                     break;
                 }
@@ -238,7 +292,7 @@ fn judge_family(r: &mut UnitResult, fam: &str, max_depth: usize) {
                     r.violate(
                         format!("panic|{}|{}", fam, truncate(&msg, 40)),
                         format!("nesting family '{}' at depth {}: front end panicked (exit {}): {}", fam, mid, c, msg),
-                        json!({"family": fam, "depth": mid}),
+                        json!({"family": fam_raw, "depth": mid}),
                     );
                     break;
                 }
@@ -498,18 +552,19 @@ const FAM_PER_UNIT: usize = 4;
 
 impl Check for C05 {
     fn units(&self, ctx: &Ctx) -> usize {
-        FAMILIES.len().div_ceil(FAM_PER_UNIT) + seed_sources(ctx).len().div_ceil(8) + 4
+        all_families().len().div_ceil(FAM_PER_UNIT) + seed_sources(ctx).len().div_ceil(8) + 4
     }
 
     fn run_unit(&self, ctx: &Ctx, idx: usize) -> UnitResult {
         let mut r = UnitResult::default();
-        let nf = FAMILIES.len().div_ceil(FAM_PER_UNIT);
+        let fams = all_families();
+        let nf = fams.len().div_ceil(FAM_PER_UNIT);
         if idx < nf {
             let max_depth = if ctx.thorough() { 131_072 } else { 16_384 };
-            for fam in FAMILIES.iter().skip(idx * FAM_PER_UNIT).take(FAM_PER_UNIT) {
+            for fam in fams.iter().skip(idx * FAM_PER_UNIT).take(FAM_PER_UNIT) {
                 judge_family(&mut r, fam, max_depth);
             }
-            r.sample(json!({"nesting_family": FAMILIES[idx * FAM_PER_UNIT], "member_at_depth_4": nest(FAMILIES[idx * FAM_PER_UNIT], 4)}));
+            r.sample(json!({"nesting_family": fam_label(&fams[idx * FAM_PER_UNIT]), "member_at_depth_4": nest(&fams[idx * FAM_PER_UNIT], 4)}));
             return r;
         }
         let seeds = seed_sources(ctx);
